@@ -13,12 +13,15 @@
   `rvariant_layout`, `tvariant_layout`: both have the layout of the plain row-wise text, up to the transposed flag.
   The rewrite functions map variants to variants (`*_rvariant`, `*_tvariant`), the plain layouts are variants,
   `toTransposed (layoutR t) = layoutT t`; hence every composition of the rewrites leaves `makeTable` unchanged
-  (`rewrites_rowwise`, `rewrites_transposed` are the composite statements).  Termination: `termination_independent`.
+  (`rewrites_rowwise`, `rewrites_transposed` are the composite statements).  Termination: `termination_independent`;
+  header blanks never turn a non-marker first cell into a marker (`classify_pad`), so the rewritten grid stays one
+  block for the splitter; `stream_rowwise` / `stream_transposed` combine everything for a row stream.
 -/
 import PdtModel.Model.Rewrites
 import PdtModel.Props.C02
 import PdtModel.Props.C03
 import PdtModel.Lemmas.Text
+import PdtModel.Lemmas.Marker
 set_option linter.unusedSimpArgs false
 set_option linter.unusedVariables false
 namespace Pdt.C10
@@ -220,7 +223,9 @@ theorem rvariant_layout (t : TV) (hwf : t.wf = true) (g : List Row) (h : RVarian
   simp only [hnl]
   have htake : (ucells ++ utail).take t.cols.length = ucells := by
     rw [← hul]; exact List.take_left' rfl
-  rw [htake]
+  have hguard : ¬ ((ucells ++ utail).length < t.cols.length) := by
+    simp only [List.length_append, hul]; omega
+  rw [if_neg hguard, htake]
   simp only [hu.1, if_true, hu.2]
   have hrows : drows.map (fun l => l.take t.cols.length) = t.dataRows := by
     have h2 := hd.and_mem (fun r => r.length = t.cols.length) (dataRows_length t)
@@ -412,7 +417,10 @@ theorem tvariant_layout (t : TV) (hwf : t.wf = true) (hwfT : t.wfT = true) (g : 
     simp only []
     have htk : (l0 :: ls).take (t.cols.map (·.name)).length = l0 :: ls := by
       rw [List.length_map, hlen]; exact List.take_length
-    rw [htk, f3.1]
+    rw [htk]
+    have hguard : ¬ (((l0 :: ls).map (fun l => getD0 l 1)).length < (t.cols.map (·.name)).length) := by
+      simp only [List.length_map, hlen]; omega
+    rw [if_neg hguard, f3.1]
     simp only [if_true]
     rw [transposedRows_variant t hwf hwfT _ f4]
     simp only [specLayout, f3.2, TV.names, TV.units]
@@ -856,7 +864,243 @@ theorem blockShaped_addComments (g : List Row) (b : Cell) (cs : List Cell) (h : 
     rw [rowKind_append ns (b :: cs) (Or.inr h.2.2.1)]
     exact h.2.2.1
 
-/-! ## 10. non-vacuity, and why the orientation rewrite needs well-formedness in both layouts -/
+/-! ## 11. header blanks keep the grid one block: a padded cell that is not a marker stays not a marker -/
+
+theorem space_ne (c : Char) (h : isSpace c = true) : c ≠ '*' ∧ c ≠ ':' := by
+  constructor <;> (intro e; subst e; revert h; decide)
+
+theorem leading_append_right (x : Char) (s r : Str) (hr : ∀ c ∈ r, c ≠ x) : leading x (s ++ r) = leading x s := by
+  induction s with
+  | nil =>
+    cases r with
+    | nil => rfl
+    | cons c cs => simp [leading, hr c (by simp)]
+  | cons c cs ih =>
+    simp only [List.cons_append, leading, ih]
+
+theorem leading_le_length (x : Char) (s : Str) : leading x s ≤ s.length := by
+  induction s with
+  | nil => simp [leading]
+  | cons c cs ih => simp only [leading]; split <;> simp <;> omega
+
+theorem dropWhile_ne_nil (s : Str) (h : ':' ∉ s) : s.dropWhile (· != ':') = [] := by
+  induction s with
+  | nil => rfl
+  | cons c cs ih =>
+    have hc : c ≠ ':' := fun e => h (by simp [e])
+    have hcs : ':' ∉ cs := fun e => h (List.mem_cons_of_mem _ e)
+    simp [List.dropWhile_cons, hc, ih hcs]
+
+/-- splitting at the first colon -/
+theorem split_colon (s : Str) : (':' ∉ s ∧ s.dropWhile (· != ':') = []) ∨
+    ∃ b w, s = b ++ ':' :: w ∧ ':' ∉ b := by
+  by_cases h : ':' ∈ s
+  · right
+    have hsplit : s = s.takeWhile (· != ':') ++ s.dropWhile (· != ':') := (List.takeWhile_append_dropWhile).symm
+    cases hd : s.dropWhile (· != ':') with
+    | nil =>
+      exfalso
+      rw [hd, List.append_nil] at hsplit
+      have := not_mem_takeWhile_ne ':' s
+      rw [← hsplit] at this
+      exact this h
+    | cons x ws =>
+      have hx := dropWhile_ne_head ':' s x ws hd
+      subst hx
+      exact ⟨s.takeWhile (· != ':'), ws, by rw [← hd]; exact hsplit, not_mem_takeWhile_ne ':' s⟩
+  · left
+    exact ⟨h, dropWhile_ne_nil s h⟩
+
+theorem isMetaKey_split (b w : Str) (hb : ':' ∉ b) :
+    isMetaKey (b ++ ':' :: w) = (!b.isEmpty && w.all isSpace) := by
+  have := takeWhile_ne_append ':' b w hb
+  unfold isMetaKey
+  simp only [this.1, this.2]
+
+theorem isMetaKey_nocolon (s : Str) (h : ':' ∉ s) : isMetaKey s = false := by
+  have : s.dropWhile (· != ':') = [] := dropWhile_ne_nil s h
+  unfold isMetaKey
+  simp [this]
+
+/-- blanks after a cell do not change what kind of marker it is -/
+theorem classify_pad_right (s r : Str) (hr : allSpace r = true) : classify (s ++ r) = classify s := by
+  have hr' : ∀ c ∈ r, isSpace c = true := by simpa [allSpace, List.all_eq_true] using hr
+  have hstar : ∀ c ∈ r, c ≠ '*' := fun c hc => (space_ne c (hr' c hc)).1
+  have hcol : ∀ c ∈ r, c ≠ ':' := fun c hc => (space_ne c (hr' c hc)).2
+  have hcolr : ':' ∉ r := fun h => hcol ':' h rfl
+  have hT : isTemplate (s ++ r) = isTemplate s := by
+    unfold isTemplate
+    simp only [leading_append_right ':' s r hcol]
+    rw [List.drop_append_of_le_length (leading_le_length ':' s)]
+    simp [List.contains_append, hcolr]
+  have hM : isMetaKey (s ++ r) = isMetaKey s := by
+    rcases split_colon s with ⟨hn, _⟩ | ⟨b, w, rfl, hb⟩
+    · rw [isMetaKey_nocolon s hn, isMetaKey_nocolon (s ++ r) (by simp [hn, hcolr])]
+    · rw [List.append_assoc, List.cons_append, isMetaKey_split b (w ++ r) hb, isMetaKey_split b w hb]
+      have hra : r.all isSpace = true := hr
+      simp [List.all_append, hra]
+  unfold classify classifyColon
+  simp only [leading_append_right '*' s r hstar, hT, hM]
+
+/-- blanks before a cell that is not a marker do not make it one -/
+theorem classify_pad_left (l x : Str) (hl : allSpace l = true) (hx : classify x = none) : classify (l ++ x) = none := by
+  cases l with
+  | nil => exact hx
+  | cons c0 l' =>
+    have hl' : ∀ c ∈ c0 :: l', isSpace c = true := by simpa [allSpace, List.all_eq_true] using hl
+    have h0 := space_ne c0 (hl' c0 (by simp))
+    have hcoll : ':' ∉ c0 :: l' := fun h => (space_ne ':' (hl' ':' h)).2 rfl
+    have hxc : isTemplate x = false ∧ isMetaKey x = false := by
+      unfold classify classifyColon at hx
+      by_cases h2 : leading '*' x = 2
+      · simp [h2] at hx
+      · by_cases h3 : leading '*' x = 3
+        · simp [h3] at hx
+        · simp only [h2, h3, if_false] at hx
+          cases hT : isTemplate x <;> cases hM : isMetaKey x <;> simp_all
+    have hM : isMetaKey (c0 :: l' ++ x) = false := by
+      rcases split_colon x with ⟨hn, _⟩ | ⟨b, w, rfl, hb⟩
+      · exact isMetaKey_nocolon _ (by simp [hn]; exact ⟨fun e => h0.2 e.symm, fun h => hcoll (List.mem_cons_of_mem _ h)⟩)
+      · rw [← List.append_assoc, isMetaKey_split (c0 :: l' ++ b) w (by
+          intro h; rcases List.mem_append.1 h with h | h
+          · exact hcoll h
+          · exact hb h)]
+        simp only [List.cons_append, List.isEmpty_cons, Bool.not_false, Bool.true_and]
+        cases hw : w.all isSpace with
+        | false => rfl
+        | true =>
+          exfalso
+          cases b with
+          | nil =>
+            -- x = ":" ++ blanks is a template marker
+            have hwc : ':' ∉ w := fun h => (space_ne ':' (by simpa [List.all_eq_true] using (List.all_eq_true.1 hw) ':' h)).2 rfl
+            have : isTemplate (':' :: w) = true := by
+              have hlead : leading ':' w = 0 := by
+                cases w with
+                | nil => rfl
+                | cons y ys =>
+                  have : y ≠ ':' := fun e => hwc (by simp [e])
+                  simp [leading, this]
+              simp [isTemplate, leading, hlead, hwc]
+            simp at hxc
+            rw [this] at hxc
+            exact absurd hxc.1 (by simp)
+          | cons y ys =>
+            have := isMetaKey_split (y :: ys) w hb
+            rw [hxc.2] at this
+            simp [hw] at this
+    unfold classify classifyColon
+    have hs : leading '*' (c0 :: l' ++ x) = 0 := by simp [leading, h0.1]
+    have hT : isTemplate (c0 :: l' ++ x) = false := by simp [isTemplate, leading, h0.2]
+    simp only [List.cons_append] at hs hT hM ⊢
+    simp [hs, hT, hM]
+
+theorem classify_pad (l s r : Str) (hl : allSpace l = true) (hr : allSpace r = true) (hs : classify s = none) :
+    classify (l ++ s ++ r) = none := by
+  rw [List.append_assoc]
+  exact classify_pad_left l (s ++ r) hl (by rw [classify_pad_right s r hr]; exact hs)
+
+
+/-- a row that continues a block still does so when its first cell is surrounded by blanks -/
+theorem rowKind_padCell (lr : Str × Str) (c : Cell) (rest rest' : Row) (hl : allSpace lr.1 = true)
+    (hr : allSpace lr.2 = true) (h : rowKind (c :: rest) = .plain) : rowKind (padCell lr c :: rest') = .plain := by
+  cases c with
+  | str s =>
+    have hb : (Cell.str s).isBlank = false := by
+      cases hb : (Cell.str s).isBlank with
+      | false => rfl
+      | true => simp [rowKind, hb] at h
+    have hcl : classify s = none := by
+      simp only [rowKind, hb, Bool.false_eq_true, if_false] at h
+      cases hc : classify s with
+      | none => rfl
+      | some m => rw [hc] at h; cases m <;> simp at h
+    have hb' : (Cell.str (lr.1 ++ s ++ lr.2)).isBlank = false := by rw [isBlank_pad _ _ _ hl hr]; exact hb
+    simp only [padCell, rowKind, hb', Bool.false_eq_true, if_false, classify_pad _ _ _ hl hr hcl]
+  | none => simp [rowKind, Cell.isBlank] at h
+  | int i t => simp [padCell, rowKind, Cell.isBlank]
+  | float t => simp [padCell, rowKind, Cell.isBlank]
+  | bool b => simp [padCell, rowKind, Cell.isBlank]
+  | dt t => simp [padCell, rowKind, Cell.isBlank]
+  | other t => simp [padCell, rowKind, Cell.isBlank]
+
+theorem rowKind_padCells (f : Nat → Str × Str) (hf : Blanks f) (k : Nat) (r : Row) (h : rowKind r = .plain) :
+    rowKind (padCells f k r) = .plain := by
+  cases r with
+  | nil => simp [rowKind] at h
+  | cons c cs => exact rowKind_padCell (f k) c cs _ (hf k).1 (hf k).2 h
+
+theorem blockShaped_padHeaderR (g : List Row) (fn fu : Nat → Str × Str) (hn : Blanks fn) (hu : Blanks fu)
+    (h : blockShaped g = true) : blockShaped (padHeaderR fn fu g) = true := by
+  match g, h with
+  | [], h => exact h
+  | [_], h => exact h
+  | [_, _], h => exact h
+  | [_, _, _], h => exact h
+  | hd :: d :: ns :: us :: rest, h =>
+    simp only [padHeaderR, blockShaped, Bool.and_eq_true, beq_iff_eq, List.all_cons, List.all_eq_true] at h ⊢
+    exact ⟨h.1, h.2.1, rowKind_padCells fn hn 0 ns h.2.2.1, rowKind_padCells fu hu 0 us h.2.2.2.1, h.2.2.2.2⟩
+
+theorem plain_padLines (fn fu : Nat → Str × Str) (hn : Blanks fn) (hu : Blanks fu) (k : Nat) (lines : List Row)
+    (h : ∀ r ∈ lines, rowKind r = .plain) : ∀ r ∈ padLines fn fu k lines, rowKind r = .plain := by
+  induction lines generalizing k with
+  | nil => intro r hr; simp [padLines] at hr
+  | cons l ls ih =>
+    intro r hr
+    have hl := h l (by simp)
+    have hls := ih (k + 1) (fun x hx => h x (List.mem_cons_of_mem _ hx))
+    match l, hl with
+    | [], hl => simp [rowKind] at hl
+    | [c], hl =>
+      simp only [padLines, List.mem_cons] at hr
+      rcases hr with rfl | hr
+      · exact hl
+      · exact hls r hr
+    | n :: u :: vs, hl =>
+      simp only [padLines, List.mem_cons] at hr
+      rcases hr with rfl | hr
+      · exact rowKind_padCell (fn k) n (u :: vs) _ (hn k).1 (hn k).2 hl
+      · exact hls r hr
+
+theorem blockShaped_padHeaderT (g : List Row) (fn fu : Nat → Str × Str) (hn : Blanks fn) (hu : Blanks fu)
+    (h : blockShaped g = true) : blockShaped (padHeaderT fn fu g) = true := by
+  match g, h with
+  | [], h => exact h
+  | [_], h => exact h
+  | hd :: d :: lines, h =>
+    simp only [padHeaderT, blockShaped, Bool.and_eq_true, beq_iff_eq, List.all_cons, List.all_eq_true] at h ⊢
+    exact ⟨h.1, h.2.1, plain_padLines fn fu hn hu 0 lines h.2.2⟩
+
+/-- **C10 for a row stream, row-wise text**: for a table whose plain row-wise text is one block for the splitter,
+    after any of header blanks / comments / trailing cells, and ended in any of the three ways, the splitter still
+    delivers the rewritten grid as one TABLE block at the same origin row — and that grid reads as the same table -/
+theorem stream_rowwise (t : TV) (hwf : t.wf = true) (hbs : blockShaped (layoutR t) = true)
+    (fn fu : Nat → Str × Str) (hn : Blanks fn) (hu : Blanks fu) (b : Cell) (cs : List Cell) (hb : b.isBlank = true)
+    (pads : List (List Cell)) (hp : ∀ p ∈ pads, allBlank p = true) (pre : List Row) (e : EndBy) (he : e.ok = true)
+    (ext : Ext) (f : Fixer) :
+    let g := padTrailing (addComments b cs (padHeaderR fn fu (layoutR t))) pads
+    (⟨.table, g, pre.length⟩ : Block Row) ∈ segment (pre ++ endBy g e) ∧
+    makeTable ext g f = makeTable ext (layoutR t) f := by
+  intro g
+  exact ⟨termination_independent pre g
+      (blockShaped_padTrailing _ pads (blockShaped_addComments _ b cs (blockShaped_padHeaderR _ fn fu hn hu hbs))) e he,
+    rewrites_rowwise t hwf fn fu hn hu b cs hb pads hp ext f⟩
+
+/-- **C10 for a row stream, transposed text** -/
+theorem stream_transposed (t : TV) (hwf : t.wf = true) (hwfT : t.wfT = true) (hbs : blockShaped (layoutT t) = true)
+    (fn fu : Nat → Str × Str) (hn : Blanks fn) (hu : Blanks fu)
+    (pads : List (List Cell)) (hp : ∀ p ∈ pads, allBlank p = true) (pre : List Row) (e : EndBy) (he : e.ok = true)
+    (ext : Ext) (f : Fixer) :
+    let g := padTrailing (padHeaderT fn fu (toTransposed (layoutR t))) pads
+    (⟨.table, g, pre.length⟩ : Block Row) ∈ segment (pre ++ endBy g e) ∧
+    eraseFlag (makeTable ext g f) = eraseFlag (makeTable ext (layoutR t) f) := by
+  intro g
+  refine ⟨termination_independent pre g ?_ e he, rewrites_transposed t hwf hwfT fn fu hn hu pads hp ext f⟩
+  show blockShaped (padTrailing (padHeaderT fn fu (toTransposed (layoutR t))) pads) = true
+  rw [toTransposed_layoutR t hwf]
+  exact blockShaped_padTrailing _ pads (blockShaped_padHeaderT _ fn fu hn hu hbs)
+
+/-! ## 12. non-vacuity, and why the orientation rewrite needs well-formedness in both layouts -/
 
 def exT : TV := ⟨"t".toList, .str "all".toList,
   [⟨"b".toList, "m".toList, [.str "1.5".toList, .str " NaN ".toList]⟩,
